@@ -112,6 +112,48 @@ pub fn join(dir: &str, rel: &str) -> String {
 }
 
 fn gen_cfg(rng: &mut Rng) -> (Value, &'static str) {
+    let mut side = rng.side(0xc0f6);
+    let (mut c, kind) = gen_cfg0(rng);
+    // configuration values spelled in another case (operator entries are matched by name in several places),
+    // drawn from a side stream so that every other choice stays as it was
+    if side.chance(1, 6) {
+        if let Some(ms) = c.get_mut("csiMethods").and_then(|m| m.as_array_mut()) {
+            let respell = |s: &str, k: usize| -> String {
+                match k {
+                    0 => s.to_lowercase(),
+                    1 => s.to_uppercase(),
+                    2 => {
+                        let mut c = s.chars();
+                        c.next().map(|f| f.to_uppercase().collect::<String>() + c.as_str()).unwrap_or_default()
+                    }
+                    _ => s.chars().enumerate().map(|(i, ch)| if i % 2 == 0 { ch.to_ascii_uppercase() } else { ch.to_ascii_lowercase() }).collect(),
+                }
+            };
+            let k = side.below(4);
+            let dup = side.chance(1, 2);
+            let mut extra = vec![];
+            for m in ms.iter_mut() {
+                let is_op = m.get("operator").and_then(|o| o.as_bool()).unwrap_or(false);
+                if let Some(src) = m.get("src").and_then(|x| x.as_str()).map(String::from) {
+                    if is_op || side.chance(1, 4) {
+                        let mut n = m.clone();
+                        n["src"] = Value::from(respell(&src, k));
+                        if dup {
+                            extra.push(n);
+                        } else {
+                            *m = n;
+                        }
+                    }
+                }
+            }
+            ms.extend(extra);
+            return (c, kind);
+        }
+    }
+    (c, kind)
+}
+
+fn gen_cfg0(rng: &mut Rng) -> (Value, &'static str) {
     match rng.below(12) {
         0..=5 => {
             let mut c = exec::tracer_like_cfg(
